@@ -163,8 +163,19 @@ def minimise(exe, path, key, run_replay, budget_s=90, log=lambda *a: None):
             if "schedule" in case:
                 pass
         # 3. operations of every task
+        # (the closing destroy / bfree operations stay: without them every block the caller was handed looks like a leak and a
+        # repaired tree could not replay the file cleanly)
+        def removable(c, ti):
+            return [o for o in c["tasks"][ti]["ops"] if o.get("kind") not in ("destroy", "bfree")]
+        def set_removable(c, v, ti):
+            # rebuild in original relative order: removable ops that survive, protected ops in place
+            res = []; surv = list(v); si = 0
+            for o in c["tasks"][ti]["ops"]:
+                if o.get("kind") in ("destroy", "bfree"): res.append(o)
+                elif si < len(surv) and o == surv[si]: res.append(o); si += 1
+            c["tasks"][ti]["ops"] = res
         for ti in range(len(case["tasks"])):
-            ddmin_list(case, lambda c, ti=ti: c["tasks"][ti]["ops"], lambda c, v, ti=ti: c["tasks"][ti].__setitem__("ops", v), test)
+            ddmin_list(case, lambda c, ti=ti: removable(c, ti), lambda c, v, ti=ti: set_removable(c, v, ti), test)
         # 4. faults
         for ti in range(len(case["tasks"])):
             for oi in range(len(case["tasks"][ti]["ops"])):
